@@ -1560,4 +1560,84 @@ theorem run_snoc_pat (valid : Bytes → Bool) (st : PatState) (h : List Op) (op 
 theorem latestOf_snoc (h : List Op) (op : Op) : latestOf (h ++ [op]) = (latestOf h).step op := by
   simp [latestOf, List.foldl_append]
 
+/-! ### every target has at most one element per method list
+  (this is what makes "the element of target n in the list of method m" — the model's reading of a
+  `*list.Element` back-link — well defined) -/
+
+def UInv (st : PatState) : Prop := ∀ m, ((groupsOf st.routes m).map (·.name)).Nodup
+
+theorem UInv_init : UInv PatState.init := by
+  intro m; simp [PatState.init, groupsOf, sliceOf]
+
+theorem map_name_repl (n : Name) (g : Group) (hg : g.name = n) (l : List Group) :
+    (l.map (fun g0 => if g0.name = n then g else g0)).map (·.name) = l.map (·.name) := by
+  induction l with
+  | nil => rfl
+  | cons a as ih =>
+    simp only [List.map_cons, ih]
+    by_cases ha : a.name = n
+    · simp [ha, hg]
+    · simp [ha]
+
+theorem nodup_map_filter (p : Group → Bool) {l : List Group} (h : (l.map (·.name)).Nodup) :
+    ((l.filter p).map (·.name)).Nodup :=
+  List.Nodup.sublist (List.Sublist.map _ List.filter_sublist) h
+
+theorem UInv_step {valid : Bytes → Bool} {st : PatState} {l : Latest} (h : PInv valid st l) (hu : UInv st) (op : Op) :
+    UInv (st.step valid op).1 := by
+  cases op with
+  | watch n =>
+    simp only [PatState.step]; split
+    · exact hu
+    · exact hu
+  | update n d =>
+    simp only [PatState.step]
+    split
+    · exact hu
+    · split
+      · exact hu
+      · rename_i hd
+        have hd' : d.name = n := by simpa using hd
+        obtain ⟨A1, _⟩ := addTarget_spec st d.name d.ver (built valid d) (builtKeys valid d)
+          (h.linksNodup _) (nodup_dedupKeys _) (mem_builtKeys valid d)
+        intro m
+        rw [A1 m]
+        by_cases hL : m ∈ sliceOf (st.links d.name)
+        · simp only [hL, ↓reduceIte, upd1]
+          cases hb : built valid d m with
+          | none => exact nodup_map_filter _ (hu m)
+          | some prs =>
+            simp only
+            rw [map_name_repl d.name ⟨d.name, d.ver, prs⟩ rfl]
+            exact hu m
+        · simp only [hL, ↓reduceIte]
+          cases hb : built valid d m with
+          | none => exact hu m
+          | some prs =>
+            simp only [List.map_append, List.map_cons, List.map_nil]
+            rw [List.nodup_append]
+            refine ⟨hu m, by simp, ?_⟩
+            intro a ha b hb' hab
+            simp only [List.mem_singleton] at hb'
+            obtain ⟨g, hg, hgn⟩ := List.mem_map.mp ha
+            exact PInv_unlinked h d.name m hL g hg (by rw [hgn, hab, hb'])
+  | close n =>
+    simp only [PatState.step]
+    split
+    · exact hu
+    · obtain ⟨R1, _⟩ := remLoop_spec n (sliceOf (st.links n)) (st.routes, st.fault) (h.linksNodup n)
+      intro m
+      show ((groupsOf (remLoop n (sliceOf (st.links n)) (st.routes, st.fault)).1 m).map (·.name)).Nodup
+      rw [R1 m]
+      by_cases hL : m ∈ sliceOf (st.links n)
+      · simp only [hL, ↓reduceIte]; exact nodup_map_filter _ (hu m)
+      · simp only [hL, ↓reduceIte]; exact hu m
+
+theorem UInv_run {valid : Bytes → Bool} : ∀ (ops : List Op) {st : PatState} {l : Latest}, PInv valid st l → UInv st →
+    UInv (st.run valid ops) := by
+  intro ops
+  induction ops with
+  | nil => intro st l _ hu; exact hu
+  | cons op ops ih => intro st l h hu; exact ih (PInv_step h op) (UInv_step h hu op)
+
 end GB.C06
